@@ -262,6 +262,13 @@ func init() {
 				return
 			}
 			inBubble(t, func(t *testing.T) {
+				if caseNo%50 == 33 {
+					// two real clients with RFC 6062 allocations behind one of the bundled relay address
+					// generators: each one's outgoing connection leaves from its own relayed address
+					runC16RealClient(t, rng, rec, tier, 2*(caseNo/50))
+
+					return
+				}
 				if caseNo%5 == 4 {
 					runC04Burst(t, rng, rec, tier, caseNo)
 
